@@ -43,6 +43,9 @@ func (x *Exec) step(fr *Frame, ins ssa.Instruction, st *State) []alt {
 		for _, b := range ins.Bindings {
 			bs = append(bs, x.val(fr, b))
 		}
+		if g, bound := x.P.closureTarget(ins); bound && g != nil {
+			return one(st, mk("closure", "bound:"+funcKey(g), ins.Type(), bs...))
+		}
 		return one(st, mk("closure", funcKey(ins.Fn.(*ssa.Function)), ins.Type(), bs...))
 	case *ssa.MakeInterface:
 		return one(st, x.val(fr, ins.X))
@@ -388,7 +391,12 @@ func (x *Exec) resolveCall(fr *Frame, c *ssa.CallCommon) (*ssa.Function, *Term, 
 	}
 	ft := x.val(fr, c.Value)
 	if ft.Op == "closure" {
-		if f := x.P.Func(ft.Aux); f != nil {
+		if strings.HasPrefix(ft.Aux, "bound:") {
+			// a bound method value: the binding is the receiver
+			if f := x.P.Func(strings.TrimPrefix(ft.Aux, "bound:")); f != nil && len(ft.Args) == 1 {
+				return f, mk("func", funcKey(f), nil), append([]*Term{ft.Args[0]}, args...)
+			}
+		} else if f := x.P.Func(ft.Aux); f != nil {
 			return f, ft, args
 		}
 	}
